@@ -82,6 +82,9 @@ class Sim(object):
         self.hung = None           # description of an unbounded spin
         self.capped = None
         self.spin_hook = None      # called(sim) from sleep() when spinning
+        self.block_hook = None     # called once per step beyond block_limit
+        self.block_limit = 0.25
+        self._block_seen = False
         self.on_boundary = None    # hook(name) for reach probes
         self.fired = {}            # tag -> count of env events actually fired
         self.log = []              # generic event log (tuples) for digests
@@ -164,6 +167,10 @@ class Sim(object):
         self.step_blocked += d
         self.step_sleeps += 1
         self.advance(d)
+        if self.block_hook is not None and not self._block_seen and \
+                self.step_blocked > self.block_limit:
+            self._block_seen = True
+            self.block_hook(self)
         if self.step_sleeps > 200 and self.spin_hook is not None:
             self.spin_hook(self)
 
@@ -213,6 +220,7 @@ class Sim(object):
         self.in_step = True
         self.step_blocked = 0.0
         self.step_sleeps = 0
+        self._block_seen = False
 
     def after_step(self):
         self.in_step = False
